@@ -4,7 +4,7 @@ Functions under contract: carbon.writer:writeCachedDataPoints (all four loops),
 carbon.writer:writeForever (the catch-all); callee contracts: _MetricCache.drain_metric (C02/C17),
 TokenBucket.{peek,drain} (C20).  See contracts/writer_units.py.
 """
-from pyvc.runner import Unit, Property
+from pyvc.runner import Unit, Property, Bounded
 from . import writer_units as WU
 from . import writer_forever as WF
 
@@ -19,6 +19,10 @@ def build():
   ]
   return Property(
     'C03', units,
+    bounded=[Bounded('C03/native/writer_loop_fault_injection', 'replay/writer_native.py',
+                     ['--what', 'faults', '--inflight', '1', '--faults', '2'], ['--what', 'faults', '--inflight', '1', '--faults', '2', '--thorough'],
+                     "the real writeForever / writeCachedDataPoints with a virtual clock and a storage double: 4 initial workloads (0..3 datapoints over 2 metrics) x every set of <= 2 failing calls among the first three exists / create / write calls x 0..1 stores by the 'storing thread' at every line step of the writer functions (sys.settrace scheduler; thorough: also every placement of the stop for <= 1 fault) x write strategies sorted / timesorted / bucketmax / none (thorough: all seven) x create-rate limiting on/off, pre-existing file or not: every drained batch is written once, complete, under its own metric after exists() said yes and counted, or its failure / drop is counted or logged; no datapoint is in two write calls",
+                     "cross-check of the per-iteration contract and of the meta-step 'each batch is taken by exactly one iteration' on CPython; interleaving is at line granularity of writer.py with cache operations atomic")],
     trusted_base=['A-ENGINE', 'A-SMT', 'A-BACKEND', 'A-THREADS', 'A-GIL', 'A-LIB(dict of pairs)'],
     assumptions=[
       "A-BACKEND: state.database.exists/create/write may each return anything or raise any Exception subclass and do not touch carbon's state",
